@@ -60,6 +60,9 @@ def pick_step(rng, env, fermi, names, counter, ops=None):
             groups = rand_groups(rng, x.ndim)
             if not any(len(g) > 1 for g in groups) and rng.random() < 0.7:
                 continue
+            if rng.random() < 0.12 and any(len(g) > 0 for g in groups):
+                groups = list(groups)
+                groups.insert(rng.randint(0, len(groups)), [])  # an empty group expands to a new size-one axis
             p = {"groups": groups}
             if not fermi:
                 p["mode"] = rng.choice(["insert", "concat"])
